@@ -869,7 +869,10 @@ func (r *efRun) instr(p *PState, ins ssa.Instruction) bool {
 			// EOF interpretation sites are recorded when the equal edge is taken (see branch)
 		}
 		for v := range s.defined {
-			if v != involved {
+			// an unrelated condition decided before the error was looked at (declared size
+			// exceeded AND the read failed) may choose a different error; once the error is known
+			// to be non-nil, a later unrelated test only decides how to (mis)report it
+			if v != involved && !p.NonNil(v) {
 				s.other[v] = true
 			}
 		}
